@@ -44,7 +44,8 @@ def ics(uid, n):
     # the normalised upload, whatever the server computed on the way - e.g. the commit message)
     # ... and a long text whose 75-octet folds fall next to blanks (several offsets)
     prose = "DESCRIPTION:" + PROSE + "\r\n"
-    extra = "" if n == 0 else ("CATEGORIES:zeta\r\nCATEGORIES:alpha\r\nATTENDEE:mailto:z@example.com\r\nATTENDEE:mailto:a@example.com\r\n" + prose)
+    # versions 0 and 2 have the same length (a rewrite that keeps size and, within a second, mtime)
+    extra = "" if n in (0, 2) else ("CATEGORIES:zeta\r\nCATEGORIES:alpha\r\nATTENDEE:mailto:z@example.com\r\nATTENDEE:mailto:a@example.com\r\n" + prose)
     return (f"BEGIN:VCALENDAR\r\nVERSION:2.0\r\nPRODID:-//x//y//EN\r\nBEGIN:VEVENT\r\nUID:{uid}\r\n"
             f"DTSTAMP:20200101T000000Z\r\nDTSTART:20200101T000000Z\r\nSUMMARY:v{n}\r\n{extra}END:VEVENT\r\nEND:VCALENDAR\r\n")
 
@@ -53,7 +54,7 @@ def alphabet():
     ops = []
     for n in NAMES:
         for u in UIDS:
-            for v in (0, 1):
+            for v in (0, 1, 2):
                 for em in ("none", "cur", "stale"):
                     ops.append(("put", n, u, v, em))
         for em in ("none", "cur", "stale"):
